@@ -24,6 +24,9 @@ def run(tier="quick", seed=0, replay=None):
         print(open(replay).read())
         return 1
     core.lean_stage(chk, "C03")
+    from harness import cover
+    _cv = cover.Cover(['ixai/explainer/sage/incremental.py', 'ixai/explainer/base.py', 'ixai/utils/tracker/multi_value.py'])
+    _cv.__enter__()
     quick = tier == "quick"
 
     def extra(rig, cfg):
@@ -49,6 +52,8 @@ def run(tier="quick", seed=0, replay=None):
                               f"importance_values is {rec['est']['importance']}", _expl.replay_payload(rig, cfg, t))
                 return
     _expl.spec_equality_check(chk, "C03", "sage", OBS, 70 if quick else 700, extra, "IncrementalSage")
+    _cv.__exit__(None, None, None)
+    cover.gate(chk, _cv, only_functions=['IncrementalSage', 'BaseIncrementalFeatureImportance.__init__', 'BaseIncrementalFeatureImportance.importance_values', 'BaseIncrementalFeatureImportance.variances', '_get_mean_model_output', 'MultiValueTracker'])
     chk.exhaustive = False
     chk.extra["explanation"] = ("sage_refines_spec: every tracker is the fold of the base statistic over the per-observation quantities "
                                 "defined by the chain (loss before minus loss after, imputer gets the complement); the real class is "
